@@ -224,7 +224,8 @@ def _domops(pid):
 _DOM_RULE = ('histories of insert / destroy / transfer_within / transfer / clone_within / clone_into_external / clone_multiple_into_external over 1-3 real WeakDoms, '
              'arguments drawn within the documented preconditions (moving an instance under its own descendant is excluded: no tree can represent it; the list given to clone_multiple_into_external may repeat an '
              'instance or name an instance together with a descendant - nothing documented forbids it - and then any of the copies counts as the corresponding copy of a Ref target); '
-             'nodes carry 0-2 outward Ref properties, a self Ref, dangling Refs, pooled UniqueIds; one inserted builder in six is created on a freshly started thread; '
+             'nodes carry 0-2 outward Ref properties, a self Ref, dangling Refs, pooled UniqueIds; one inserted builder in six is created on a freshly started thread, through any of the public constructors (new / with_property_capacity / empty + with_class / set_class); now and then a DOM goes through '
+             'into_raw + from_raw + reserve (nothing observable may change; the rebuilt id bookkeeping is checked through the hook); '
              'random histories of 20-400 operations (few live nodes, many operations) plus the exhaustive enumeration of every history in the small scopes '
              'listed under exhaustive_scopes (all valid argument choices at every step); after EVERY step each DOM is walked through the public API and compared '
              'with a reference model executing the documented meaning of the step; ')
